@@ -38,6 +38,7 @@ type Engine struct {
 	funcIDs         map[*ssa.Function]int
 	known           []*KnownFinding
 	replayOracles   map[string]string
+	extErrGlobals   map[string]bool // error variables of other packages treated as constants (assumption)
 	errGlobals      map[string]int // "glob:pkg.Var" of error variables initialised once by errors.New and never written again
 	errGlobalNames  []string
 	initOnly        map[string]bool // heap-key prefixes ("pkg.Type.f<i>_") of unexported fields written only on objects the writing function has just allocated
@@ -183,6 +184,32 @@ func (e *Engine) findErrGlobals() {
 			names = append(names, "glob:"+e.pkgRepl.Replace(g.String()))
 		}
 	}
+	// error variables of packages outside the repository (io.EOF, io.ErrUnexpectedEOF, io.ErrShortBuffer, ...) that
+	// repository code reads: ASSUMED initialised to distinct non-nil values and never reassigned (nobody assigns to
+	// io.EOF); without this a call to unknown code would "reassign" them
+	ext := map[string]bool{}
+	for fn := range ssautil.AllFunctions(e.prog) {
+		if fn.Pkg == nil || !e.isRepoPkg(fn.Pkg.Pkg.Path()) {
+			continue
+		}
+		for _, b := range fn.Blocks {
+			for _, in := range b.Instrs {
+				for _, op := range in.Operands(nil) {
+					g, ok := (*op).(*ssa.Global)
+					if !ok || g.Pkg == nil || e.isRepoPkg(g.Pkg.Pkg.Path()) {
+						continue
+					}
+					if pt, ok := g.Type().(*types.Pointer); ok && pt.Elem().String() == "error" {
+						ext["glob:"+e.pkgRepl.Replace(g.String())] = true
+					}
+				}
+			}
+		}
+	}
+	for n := range ext {
+		names = append(names, n)
+	}
+	e.extErrGlobals = ext
 	sort.Strings(names)
 	for i, n := range names {
 		e.errGlobals[n] = i
